@@ -212,6 +212,11 @@ def parse_with_formats(date_string, date_formats, settings):
                 period = "month"
                 date_obj = set_correct_day_from_settings(date_obj, settings)
 
+            if settings.RETURN_TIME_AS_PERIOD and any(
+                t in date_format for t in ["%H", "%I", "%M", "%S", "%f", "%p"]
+            ):
+                period = "time"
+
             if not ("%y" in date_format or "%Y" in date_format):
                 today = datetime.today()
                 date_obj = date_obj.replace(year=today.year)
